@@ -274,11 +274,31 @@ func c19(args []string) {
 		}
 		sc := bufio.NewScanner(f)
 		lineNo := 0
+		// consecutive lines with the same "@session=<k>" token run in ONE HermesSession (batch mode)
+		var sess *hermes.HermesSession
+		sessKey := ""
 		for sc.Scan() {
 			if line := sc.Text(); len(line) > 0 {
-				c19TraceLine(*work, line, lineNo, r, *every)
+				key := ""
+				for _, t := range splitArgs(line) {
+					if strings.HasPrefix(t, "@session=") {
+						key = t
+					}
+				}
+				if key != sessKey && sess != nil {
+					sess.Close()
+					sess = nil
+				}
+				if key != "" && sess == nil {
+					sess = hermes.NewHermesSession()
+				}
+				sessKey = key
+				c19TraceLine(*work, line, lineNo, r, *every, sess)
 				lineNo++
 			}
+		}
+		if sess != nil {
+			sess.Close()
 		}
 	}
 }
@@ -294,7 +314,7 @@ func sameFloats(a, b []float64) bool {
 
 // Soiltemp is called between the probes "evatra" and "steps" (run.go:497, 535, 587); nothing else
 // writes TSOIL/TD/HEATCOND/HEATCAP in between: the state at "evatra" is its pre-state, at "steps" its post-state.
-func c19TraceLine(work, line string, lineNo int, r *rng, every int) {
+func c19TraceLine(work, line string, lineNo int, r *rng, every int, session *hermes.HermesSession) {
 	var pre hermes.GlobalVarsMain
 	var env *envelope
 	havePre := false
@@ -385,16 +405,27 @@ func c19TraceLine(work, line string, lineNo int, r *rng, every int) {
 	}
 	confT, confFrom = configuredTBase(work, runArgs)
 	if useRef {
-		wref = loadWeatherRef(work, runArgs, 999.9)
+		none := 999.9 // WeatherNoneValue of all example configurations, unless the batch line says otherwise
+		for _, a := range runArgs {
+			if strings.HasPrefix(a, "WeatherNoneValue=") {
+				none, _ = strconv.ParseFloat(a[len("WeatherNoneValue="):], 64)
+			}
+		}
+		wref = loadWeatherRef(work, runArgs, none)
 		if wref == nil {
 			emit(jobj{"k": "noweatherref", "line": lineNo})
 		}
 	}
-	res := runProject(work, runArgs)
+	var res runResult
+	if session != nil {
+		res = c20RunInSession(session, work, runArgs, fmt.Sprintf("[%d]", lineNo))
+	} else {
+		res = runProject(work, runArgs)
+	}
 	hermes.VerifProbe = nil
 	o := jobj{"k": "run", "line": lineNo, "success": res.Success, "err": res.Err, "days": days, "emitted": emitted,
 		"weather_ref_days": refDays, "radiation_missing_days": radMissingDays, "surface_mismatch_days": surfFails,
-		"tbase_configured": hx(confT), "tbase_configured_value": confT, "tbase_from": confFrom, "tbase_mismatch_days": tbaseFails}
+		"shared_session": session != nil, "tbase_configured": hx(confT), "tbase_configured_value": confT, "tbase_from": confFrom, "tbase_mismatch_days": tbaseFails}
 	seen := []string{}
 	for _, v := range tbaseSeen {
 		seen = append(seen, hx(v))
